@@ -193,6 +193,8 @@ var c15BadText = []string{
 	"2000-13-01T", "2000-00-01T", "2000-13T", "2000-00T", "2000-01-32", "2000-01-00", "2000-02-30", "2001-02-29", "1900-02-29", "2100-02-29", "2000-04-31", "2000-06-31", "2000-09-31", "2000-11-31",
 	"2000-01-01T24:00Z", "2000-01-01T23:60Z", "2000-01-01T00:00:60Z", "2000-01-01T24:00:00Z", "2000-01-01T00:00:00.5+24:00", "2000-01-01T00:00+24:00", "2000-01-01T00:00-24:00", "2000-01-01T00:00+23:60", "2000-01-01T00:00-00:60", "2000-01-01T00:00+25:00",
 	"0000-01-01", "0000T", "2000-01-01T00:00", "2000-01-01T00:00:00", "2000-01-01T00Z", "2000-1-01", "20000-01-01", "2000-01-01T00:00:00.Z", "2000-01-01T0:00Z",
+	// a time of day without an offset, with every fraction length class (none, 1, 9, >9 digits), and a truncated offset
+	"2000-01-01T00:00:00.", "2000-01-01T00:00:00.5", "2000-01-01T00:00:00.123456789", "2000-01-01T00:00:00.1234567890", "2000-01-01T00:00:00.5+", "2000-01-01T00:00:00.5+01", "2000-01-01T00:00:00.5+01:0", "2000-01-01T00:00+01:", "2000-01-01T00:00:00-",
 }
 
 func c15Reject(c *mc.Ctx) {
@@ -428,7 +430,7 @@ func init() {
 		ID:    "C15",
 		Title: "Timestamps keep instant, offset, precision and fraction digits in both formats",
 		Rule: "(1) the full product of 65 dates (every month end of 1999/2000/2001/2004/2100, 0001-01-01, 0001-12-31, 9999-01-01, 9999-12-31) x 5 precisions x 3 times x 8 offsets (UTC, unknown, ±1, +330, -720, ±1439 — crossing into UTC year 0 and 10000) x fraction digits 0..9 x up to 6 coefficients per digit count (0, 1, half, all nines, leading/trailing zeros): constructed through the Go API, formatted (String must parse under the reference grammar to the same value), ParseTimestamp, text write+read, binary write+read (bytes judged by the independent decoder and by the Reader), and every reference binary encoding with <=d deviations read back; " +
-			"(2) rejection: 33 impossible literals through ParseTimestamp and the Reader, and binary timestamps with each field out of range at each precision and an hour without minutes; (4) every ordered pair of 7 timestamps of different precisions in ONE stream (top level and inside a list) through the text writer, the binary writer and the reference encoder, read back by one Reader; (3) rounding: fractions of 10..21 digits built from 7 nine-digit heads x 9 tails around the half-unit boundary, in text and binary, must land on a nearest nanosecond (ties accept either). " +
+			"(2) rejection: 42 invalid literals (impossible fields, and a time of day without or with a truncated offset at every fraction length class) through ParseTimestamp and the Reader, and binary timestamps with each field out of range at each precision and an hour without minutes; (4) every ordered pair of 7 timestamps of different precisions in ONE stream (top level and inside a list) through the text writer, the binary writer and the reference encoder, read back by one Reader; (3) rounding: fractions of 10..21 digits built from 7 nine-digit heads x 9 tails around the half-unit boundary, in text and binary, must land on a nearest nanosecond (ties accept either). " +
 			"non-trivial = all comparisons of the case were evaluated; distinct = distinct (part, formatted value / outcome) digests",
 		Bounds:      map[string]string{"quick": "d<=1 on the reference encodings", "thorough": "d<=2"},
 		Assumptions: []string{"the reference calendar arithmetic (refmodel, proleptic Gregorian, no time.Time) is trusted", "a Go Timestamp whose nanoseconds carry more digits than its declared fraction digits is an inconsistent object and is not generated"},
